@@ -380,20 +380,29 @@ func genTruth(t *rapid.T, depth int, pure bool, marker *int) *ref.Node {
 		}
 		return tleaf(rapid.SampledFrom(leaves).Draw(t, "leaf"))
 	}
+	// sub-expressions are parenthesised only where the grammar level requires it (or at random), so that
+	// un-parenthesised nestings such as a ? b : c ? d : e and a || b && c are exercised as written
+	subAt := func(p bool, level int) *ref.Node {
+		n := genTruth(t, depth-1, p, marker)
+		if rapid.IntRange(0, 3).Draw(t, "extraparen") == 0 {
+			return paren(n)
+		}
+		return atLevel(n, level)
+	}
 	sub := func(p bool) *ref.Node { return paren(genTruth(t, depth-1, p, marker)) }
 	switch rapid.IntRange(0, 8).Draw(t, "kind") {
 	case 0:
-		return &ref.Node{Kind: "pre", Op: "!!", Kids: []*ref.Node{sub(pure)}}
+		return &ref.Node{Kind: "pre", Op: "!!", Kids: []*ref.Node{subAt(pure, ref.LvUnary)}}
 	case 1:
-		return &ref.Node{Kind: "pre", Op: "!", Kids: []*ref.Node{paren(&ref.Node{Kind: "pre", Op: "!!", Kids: []*ref.Node{sub(pure)}})}}
+		return &ref.Node{Kind: "pre", Op: "!", Kids: []*ref.Node{{Kind: "pre", Op: "!!", Kids: []*ref.Node{subAt(pure, ref.LvUnary)}}}}
 	case 2, 3:
-		return &ref.Node{Kind: "cond", Kids: []*ref.Node{sub(pure), sub(pure), sub(pure)}}
+		return &ref.Node{Kind: "cond", Kids: []*ref.Node{subAt(pure, 2), subAt(pure, ref.LvAssign), subAt(pure, ref.LvAssign)}}
 	case 4:
-		return &ref.Node{Kind: "bin", Op: "&&", Kids: []*ref.Node{sub(pure), sub(true)}}
+		return &ref.Node{Kind: "bin", Op: "&&", Kids: []*ref.Node{subAt(pure, 3), subAt(true, 4)}}
 	case 5:
-		return &ref.Node{Kind: "bin", Op: "||", Kids: []*ref.Node{sub(pure), sub(true)}}
+		return &ref.Node{Kind: "bin", Op: "||", Kids: []*ref.Node{subAt(pure, 2), subAt(true, 3)}}
 	case 6:
-		return &ref.Node{Kind: "bin", Op: "??", Kids: []*ref.Node{sub(pure), sub(true)}}
+		return &ref.Node{Kind: "bin", Op: "??", Kids: []*ref.Node{subAt(pure, 2), subAt(true, 3)}}
 	case 7:
 		if pure {
 			return sub(true)
